@@ -25,6 +25,15 @@ ProfSpace == UNION {[1..k -> {s \in Segs : Sane(s)}] : k \in 1..MaxSegs}
 \* search; 999 = no such sentence end.
 ProbeSpace == [d1 : {-150, -100, -99, -50, -1, 0, 999}, d2 : {1, 2, 49, 50, 51, 99, 100, 150, 999}]
 
+\* sweeps: texts whose byte length and character count differ.  cuts x 10-byte ASCII
+\* words fill whole pieces; the last segment has max + d bytes (max = the limit
+\* position in bytes) of which e characters are w bytes wide and stand at its head,
+\* around the position where it would be cut, or at its tail.  d sweeps the window in
+\* which the two measures fall on different sides of the maximum.
+SweepSpace == [cuts : 0..2, zone : {"head", "cut", "tail"}, w : {2, 3, 4}, e : {1, 2, 3, 5},
+               d : {-2, -1, 0, 1, 2, 3, 4, 6, 9, 12, 15}]
+SweepULs == {<<"characters", 200, 4>>, <<"characters", 257, 4>>, <<"tokens", 200, 1>>, <<"tokens", 200, 4>>}
+
 Init == /\ prof \in Space
         /\ ul \in UnitLimits
 Next == FALSE /\ UNCHANGED vars
@@ -39,5 +48,6 @@ BoundULs == {<<"characters", 200, 4>>, <<"characters", 257, 4>>}
 ULs == BoundULs \cup {<<"tokens", 50, 4>>, <<"tokens", 71, 2>>}
 
 EmitCase  == PrintT(ToJson([prof |-> prof, unit |-> ul[1], limit |-> ul[2], cpt |-> ul[3]]))
+EmitSweep == PrintT(ToJson([sweep |-> prof, unit |-> ul[1], limit |-> ul[2], cpt |-> ul[3]]))
 EmitProbe == PrintT(ToJson([probe |-> prof, unit |-> ul[1], limit |-> ul[2], cpt |-> ul[3]]))
 =============================================================================
